@@ -468,7 +468,7 @@ func run(c *vf.Ctx) {
 	// The live heap is tiny and the code under test allocates a lot, so the default pacing
 	// would run a collection every few milliseconds on all cores: collect by limit instead.
 	debug.SetGCPercent(-1)
-	debug.SetMemoryLimit(1 << 30)
+	debug.SetMemoryLimit(512 << 20)
 	c.Rule("every known_hosts file of 1..D lines (D=3 quick, 4 thorough) over the line alphabet (plain, list, [host]:port, '*' and '?' wildcards, negations, hashed, @cert-authority, @revoked, comment, blank, whitespace variants, unusable lines) x every query of the query set (6 hosts x 3 ports with and without host name, remote address known/unknown) x 8 keys (3 listed keys, a fresh key, certificates signed by each listed key and by an unlisted CA); a file is non-trivial (and counted by its line indices) when its queries produce at least two different kinds of answer")
 	c.Assume("keys are fixed test keys; only the salts of hashed entries depend on the seed")
 	c.Assume("certificates are queried with a host name only (CertChecker.CheckHostKey consults IsHostAuthority with the address argument); certificates carry no principals and never expire")
@@ -511,61 +511,67 @@ func run(c *vf.Ctx) {
 	salt := func(i int) []byte { return c.Bytes("salt", i, 20) }
 	ka, kb, kc := keyText(A), keyText(B), keyText(C)
 	// The alphabet. core lines also form the 4-line files of the thorough tier.
+	// level 0: core (also forms the 4-line files of the thorough tier); level <= 1: main
+	// (forms the 3-line files of the quick tier); level 2: only in 1- and 2-line files in the
+	// quick tier, in 3-line files too in the thorough tier.
 	type tl struct {
-		t    string
-		core bool
+		t     string
+		level int
 	}
 	tls := []tl{
-		{"a.x " + ka, true},
-		{"a.x " + kb, true},
-		{"b.x " + ka, true},
-		{"a.x,b.x " + kc, true},
-		{"[a.x]:2222 " + ka, true},
-		{"[a.x]:2222,a.x " + kb, false},
-		{"*.x " + ka, true},
-		{"*.x,!b.x " + kb, true},
-		{"!a.x,*.x " + kc, true},
-		{"a?.x " + ka, false},
-		{"a*.x,!a?.x " + kb, false}, // '*' matching the empty string, vetoed where '?' matches
-		{"* " + kc, true},
-		{"[*.x]:2222 " + kb, true},
-		{"[*.x]:2222,![b.x]:2222 " + kc, true},
-		{"[*]:2222,!ab.x " + ka, false},
-		{"!b.x " + ka, false},
-		{ref.HashName("a.x", salt(0)) + " " + ka, true},
-		{ref.HashName("[a.x]:2222", salt(1)) + " " + kb, true},
-		{ref.HashName("b.x", salt(2)) + " " + kc, true},
-		{"1.2.3.4 " + ka, true},
-		{"a.x,1.2.3.4 " + kb, false},
-		{"1.2.3.? " + kc, false},
-		{"::1 " + kc, true},
-		{"[::1]:2222 " + ka, false},
-		{"@cert-authority *.x " + ka, true},
-		{"@cert-authority a.x " + kb, true},
-		{"@cert-authority [a.x]:2222 " + ka, true},
-		{"@cert-authority * " + kc, true},
-		{"@cert-authority " + ref.HashName("b.x", salt(3)) + " " + kb, false},
-		{"@cert-authority *.x,!ab.x " + kc, true},
-		{"@revoked * " + ka, true},
-		{"@revoked a.x " + kb, true},
-		{"@revoked * " + kc, false},
-		{"@revoked * " + keyText(certA.pub), false},
-		{"# a.x " + ka, false},
-		{"", false},
-		{" \ta.x \t" + ka + "  some comment ", false},
-		{"@cert-authority\t*.x\t" + strings.Replace(kb, " ", "\t", 1), false}, // tabs only (OpenSSH ends a marker at the first space of the line)
-		{"a.x ssh-ed25519", false},
-		{"a.x ssh-rsa " + strings.SplitN(ka, " ", 2)[1], false},
-		{"@bogus a.x " + ka, false},
-		{"ab.x,a.x " + kc, false},
-		{"@revoked b.x " + ka, false},
+		{"a.x " + ka, 0},
+		{"a.x " + kb, 0},
+		{"b.x " + ka, 0},
+		{"a.x,b.x " + kc, 0},
+		{"[a.x]:2222 " + ka, 0},
+		{"[a.x]:2222,a.x " + kb, 2},
+		{"*.x " + ka, 0},
+		{"*.x,!b.x " + kb, 0},
+		{"!a.x,*.x " + kc, 0},
+		{"a?.x " + ka, 1},
+		{"a*.x,!a?.x " + kb, 1}, // '*' matching the empty string, vetoed where '?' matches
+		{"* " + kc, 0},
+		{"[*.x]:2222 " + kb, 0},
+		{"[*.x]:2222,![b.x]:2222 " + kc, 0},
+		{"[*]:2222,!ab.x " + ka, 2},
+		{"!b.x " + ka, 1},
+		{ref.HashName("a.x", salt(0)) + " " + ka, 0},
+		{ref.HashName("[a.x]:2222", salt(1)) + " " + kb, 0},
+		{ref.HashName("b.x", salt(2)) + " " + kc, 0},
+		{"1.2.3.4 " + ka, 0},
+		{"a.x,1.2.3.4 " + kb, 2},
+		{"1.2.3.? " + kc, 2},
+		{"::1 " + kc, 0},
+		{"[::1]:2222 " + ka, 2},
+		{"@cert-authority *.x " + ka, 0},
+		{"@cert-authority a.x " + kb, 0},
+		{"@cert-authority [a.x]:2222 " + ka, 0},
+		{"@cert-authority * " + kc, 0},
+		{"@cert-authority " + ref.HashName("b.x", salt(3)) + " " + kb, 2},
+		{"@cert-authority *.x,!ab.x " + kc, 0},
+		{"@revoked * " + ka, 0},
+		{"@revoked a.x " + kb, 0},
+		{"@revoked * " + kc, 2},
+		{"@revoked * " + keyText(certA.pub), 2},
+		{"# a.x " + ka, 1},
+		{"", 1},
+		{" \ta.x \t" + ka + "  some comment ", 1},
+		{"@cert-authority\t*.x\t" + strings.Replace(kb, " ", "\t", 1), 2}, // tabs only (OpenSSH ends a marker at the first space of the line)
+		{"a.x ssh-ed25519", 2},
+		{"a.x ssh-rsa " + strings.SplitN(ka, " ", 2)[1], 1},
+		{"@bogus a.x " + ka, 2},
+		{"ab.x,a.x " + kc, 2},
+		{"@revoked b.x " + ka, 2},
 	}
 	var texts []string
-	var coreIdx []int
+	var coreIdx, mainIdx []int
 	for i, x := range tls {
 		texts = append(texts, x.t)
-		if x.core {
+		if x.level == 0 {
 			coreIdx = append(coreIdx, i)
+		}
+		if x.level <= 1 {
+			mainIdx = append(mainIdx, i)
 		}
 	}
 	alpha := make([]alphaLine, len(texts))
@@ -618,10 +624,14 @@ func run(c *vf.Ctx) {
 		allIdx[i] = i
 	}
 	c.Set("alphabet_core_lines_for_4_line_files", len(coreIdx))
+	c.Set("alphabet_main_lines_for_3_line_files_quick", len(mainIdx))
 	for L := 1; L <= maxLines; L++ {
 		set := allIdx
 		if L == 4 {
 			set = coreIdx
+		}
+		if L == 3 && !c.Thorough {
+			set = mainIdx
 		}
 		n := len(set)
 		total := 1
